@@ -189,3 +189,196 @@ str_fn_harness!(stdlib_string_mid_no_panic, |l, p| [Value::String(SmolStr::new_i
 
 // (probed, not registered: the same harness for DELETE and REPLACE exhausts 16 GB - they build the result in a Vec<u8>;
 //  the identical `start + length` expression in those functions was repaired together with MID's.)
+
+// =====================================================================================
+// Array element addressing (C02-K2): row-major offset, bounds fault exactly outside [lo, hi]
+// =====================================================================================
+use trust_runtime::eval::expr::verif_exports::access::array_offset_x;
+
+// @verif prop=C01,C02 kernel=K2 tiers=quick,thorough timeout=1800 unwind=1 mem=12 loops=array_offset:4,Iterator:4,Rev:4,Zip:4,next_back:4
+// @verif what=array_offset for 1- and 2-dimensional arrays: IndexOutOfBounds exactly when an index is outside its [lower, upper], otherwise the row-major offset (last dimension contiguous), always below the element count; never a panic
+// @verif fns=eval::expr::access::{array_offset,index_to_i64}
+// @verif bound=lower bounds in [-1000, 1000], dimension lengths 1..=4 (arrays that can be allocated), indices any DINT resp. LINT
+#[kani::proof]
+fn stdlib_array_offset_row_major() {
+    let (lo1, lo2): (i64, i64) = (kani::any(), kani::any());
+    let (n1, n2): (i64, i64) = (kani::any(), kani::any());
+    kani::assume(lo1 >= -1000 && lo1 <= 1000 && lo2 >= -1000 && lo2 <= 1000 && n1 >= 1 && n1 <= 4 && n2 >= 1 && n2 <= 4);
+    let (hi1, hi2) = (lo1 + n1 - 1, lo2 + n2 - 1);
+    let i1: i32 = kani::any();
+    let i2: i64 = kani::any();
+    if kani::any() {
+        let dims = [(lo1, hi1)];
+        let idx = [Value::DInt(i1)];
+        let r = array_offset_x(&dims, &idx);
+        let inside = (i1 as i64) >= lo1 && (i1 as i64) <= hi1;
+        #[cfg(feature = "c02")]
+        {
+            if inside { assert!(matches!(&r, Ok(o) if *o as i64 == (i1 as i64) - lo1), "C02: 1-D array offset is not index - lower"); }
+            else { assert!(matches!(&r, Err(RuntimeError::IndexOutOfBounds { .. })), "C02: out-of-bounds index must fault with IndexOutOfBounds"); }
+        }
+        kani::cover!(inside && n1 == 4);
+        std::mem::forget(r); std::mem::forget(idx);
+    } else {
+        let dims = [(lo1, hi1), (lo2, hi2)];
+        let idx = [Value::DInt(i1), Value::LInt(i2)];
+        let r = array_offset_x(&dims, &idx);
+        let inside = (i1 as i64) >= lo1 && (i1 as i64) <= hi1 && i2 >= lo2 && i2 <= hi2;
+        #[cfg(feature = "c02")]
+        {
+            if inside {
+                let expect = ((i1 as i64) - lo1) * n2 + (i2 - lo2);
+                assert!(matches!(&r, Ok(o) if *o as i64 == expect && (*o as i64) < n1 * n2), "C02: 2-D array offset is not row-major");
+            } else { assert!(matches!(&r, Err(RuntimeError::IndexOutOfBounds { .. })), "C02: out-of-bounds index must fault with IndexOutOfBounds"); }
+        }
+        kani::cover!(inside && n1 == 3 && n2 == 4);
+        kani::cover!(!inside);
+        std::mem::forget(r); std::mem::forget(idx);
+    }
+}
+
+// =====================================================================================
+// BCD conversions
+// =====================================================================================
+use trust_runtime::stdlib::conversions::verif_export::bcd_x;
+
+macro_rules! bcd_case {
+    ($uv:ident, $ut:ty, $utid:ident, $bv:ident, $bt:ty, $btid:ident, $limit:expr) => {{
+        let x: $ut = kani::any();
+        let v = Value::$uv(x);
+        let enc = bcd_x(&v, TypeId::$btid, true);
+        #[cfg(feature = "c02")]
+        {
+            if (x as u128) < $limit {
+                match &enc {
+                    Ok(Value::$bv(bits)) => {
+                        let packed = Value::$bv(*bits);
+                        let dec = bcd_x(&packed, TypeId::$utid, false);
+                        assert!(matches!(&dec, Ok(Value::$uv(y)) if *y == x), "C02: BCD_TO(TO_BCD(x)) differs from x");
+                        // every nibble is a decimal digit
+                        let mut b = *bits as u64; let mut ok = true; let mut i = 0;
+                        while i < 16 { if (b & 0xF) > 9 { ok = false; } b >>= 4; i += 1; }
+                        assert!(ok, "C02: TO_BCD produced a nibble above 9");
+                        std::mem::forget(dec);
+                    }
+                    _ => assert!(false, "C02: TO_BCD of a value that fits the digit count failed"),
+                }
+            } else {
+                assert!(matches!(&enc, Err(RuntimeError::Overflow)), "C02: TO_BCD of a value with too many digits must fault with Overflow");
+            }
+        }
+        kani::cover!((x as u128) + 1 == $limit);
+        kani::cover!((x as u128) >= $limit);
+        std::mem::forget(enc);
+        std::mem::forget(v);
+    }};
+}
+
+// @verif prop=C01,C02 kernel=K5 tiers=quick,thorough timeout=2400 unwind=1 mem=12 loops=u64_to_bcd:18,bcd_to_u64:18,stdlibk:18,Iterator:18
+// @verif what=TO_BCD / BCD_TO: values that fit the digit count round-trip exactly and every nibble is a decimal digit; values with too many digits fault with Overflow; never a panic
+// @verif fns=stdlib::conversions::bcd::{to_bcd,from_bcd,u64_to_bcd,bcd_to_u64}
+// @verif bound=every USINT->BYTE, UINT->WORD, UDINT->DWORD value; ULINT->LWORD for every u64
+#[kani::proof]
+fn stdlib_bcd_roundtrip() {
+    let k: u8 = kani::any();
+    match k % 4 {
+        0 => bcd_case!(USInt, u8, USINT, Byte, u8, BYTE, 100u128),
+        1 => bcd_case!(UInt, u16, UINT, Word, u16, WORD, 10_000u128),
+        2 => bcd_case!(UDInt, u32, UDINT, DWord, u32, DWORD, 100_000_000u128),
+        _ => bcd_case!(ULInt, u64, ULINT, LWord, u64, LWORD, 10_000_000_000_000_000u128),
+    }
+}
+
+// =====================================================================================
+// Date / time construction functions
+// =====================================================================================
+use trust_runtime::stdlib::time::verif_export::{concat_date_x, concat_tod_x, day_of_week_x, div_time_x, mul_time_x};
+use trust_runtime::value::{DateValue, Duration};
+
+// @verif prop=C01 kernel=K5 tiers=quick,thorough timeout=1800 unwind=1 mem=12
+// @verif what=CONCAT_DATE(YEAR, MONTH, DAY) and CONCAT_TOD(H, M, S, MS) with components of ANY LINT magnitude, DAY_OF_WEEK of any DATE: never panic (calendar arithmetic), out-of-range components fault with a value-dependent error
+// @verif fns=stdlib::time::{concat_date,concat_tod,day_of_week,tod_components_to_nanos}, datetime::{days_from_civil,days_to_ticks,nanos_to_ticks}
+// @verif bound=every i64 year/month/day resp. hour/minute/second/millisecond; every i64 DATE tick value
+#[kani::proof]
+fn stdlib_date_construction_no_panic() {
+    let (a, b, c, d): (i64, i64, i64, i64) = (kani::any(), kani::any(), kani::any(), kani::any());
+    let k: u8 = kani::any();
+    match k % 3 {
+        0 => {
+            let args = [Value::LInt(a), Value::LInt(b), Value::LInt(c)];
+            let r = concat_date_x(&args);
+            if let Err(e) = &r { assert!(!crate::ops::static_class(e), "C01: CONCAT_DATE refuses a component with a static-class error"); }
+            kani::cover!(r.is_ok());
+            kani::cover!(a == i64::MAX && b == 1 && c == 1);
+            std::mem::forget(r); std::mem::forget(args);
+        }
+        1 => {
+            let args = [Value::LInt(a), Value::LInt(b), Value::LInt(c), Value::LInt(d)];
+            let r = concat_tod_x(&args);
+            if let Err(e) = &r { assert!(!crate::ops::static_class(e), "C01: CONCAT_TOD refuses a component with a static-class error"); }
+            kani::cover!(r.is_ok());
+            std::mem::forget(r); std::mem::forget(args);
+        }
+        _ => {
+            let args = [Value::Date(DateValue::new(a))];
+            let r = day_of_week_x(&args);
+            if let Ok(Value::Int(w)) = &r { assert!(*w >= 0 && *w <= 6, "C01: DAY_OF_WEEK outside 0..=6"); }
+            kani::cover!(r.is_ok());
+            std::mem::forget(r); std::mem::forget(args);
+        }
+    }
+}
+
+// @verif prop=C01 kernel=K5 tiers=quick,thorough timeout=1800 unwind=1 mem=12
+// @verif what=MUL_TIME / DIV_TIME of any TIME by any LINT or LREAL factor: never panic; a zero divisor or an unrepresentable result is a value-dependent fault
+// @verif fns=stdlib::time::{mul_time,div_time}, stdlib::helpers::scale_time
+// @verif bound=every i64 duration, every i64 factor and every f64 bit pattern factor
+#[kani::proof]
+fn stdlib_time_scaling_no_panic() {
+    let t: i64 = kani::any();
+    let k: u8 = kani::any();
+    let r = match k % 4 {
+        0 => { let args = [Value::Time(Duration::from_nanos(t)), Value::LInt(kani::any())]; let r = mul_time_x(&args); std::mem::forget(args); r }
+        1 => { let args = [Value::Time(Duration::from_nanos(t)), Value::LInt(kani::any())]; let r = div_time_x(&args); std::mem::forget(args); r }
+        2 => { let args = [Value::Time(Duration::from_nanos(t)), Value::LReal(f64::from_bits(kani::any()))]; let r = mul_time_x(&args); std::mem::forget(args); r }
+        _ => { let args = [Value::Time(Duration::from_nanos(t)), Value::LReal(f64::from_bits(kani::any()))]; let r = div_time_x(&args); std::mem::forget(args); r }
+    };
+    if let Err(e) = &r { assert!(!crate::ops::static_class(e), "C01: TIME scaling refuses a factor with a static-class error"); }
+    kani::cover!(r.is_ok());
+    kani::cover!(r.is_err());
+    std::mem::forget(r);
+}
+
+use trust_runtime::value::{DateTimeValue, LDateTimeValue};
+
+// @verif prop=C01,C02 kernel=K5 tiers=quick,thorough timeout=1800 unwind=1 mem=12
+// @verif what=DT_TO_DATE / DT_TO_TOD and LDT_TO_DATE / LDT_TO_LTOD for every DT / LDT value: never panic; when both parts convert, the time-of-day part is inside one day and date part + time-of-day part reconstructs the original instant
+// @verif fns=stdlib::conversions::time::{convert_to_date,convert_to_tod,dt_ticks_to_days,dt_ticks_to_tod_ticks,ldt_nanos_to_days,ldt_nanos_to_tod_nanos}, datetime::{days_to_ticks,ticks_per_day}
+// @verif bound=every i64 DT tick value (default profile: 1 ms ticks) and every i64 LDT nanosecond value
+#[kani::proof]
+fn stdlib_dt_split_reconstructs() {
+    let x: i64 = kani::any();
+    if kani::any() {
+        let v = Value::Dt(DateTimeValue::new(x));
+        let d = convert_x(&v, TypeId::DATE, false);
+        let t = convert_x(&v, TypeId::TOD, false);
+        #[cfg(feature = "c02")]
+        if let (Ok(Value::Date(dd)), Ok(Value::Tod(tt))) = (&d, &t) {
+            assert!(tt.ticks() >= 0 && tt.ticks() < 86_400_000, "C02: time-of-day part of a DT is outside one day");
+            assert!((dd.ticks() as i128) + (tt.ticks() as i128) == x as i128, "C02: DATE part + TOD part does not reconstruct the DT");
+        }
+        kani::cover!(d.is_ok() && t.is_ok() && x < 0);
+        std::mem::forget(d); std::mem::forget(t); std::mem::forget(v);
+    } else {
+        let v = Value::Ldt(LDateTimeValue::new(x));
+        let d = convert_x(&v, TypeId::DATE, false);
+        let t = convert_x(&v, TypeId::LTOD, false);
+        #[cfg(feature = "c02")]
+        if let (Ok(Value::Date(dd)), Ok(Value::LTod(tt))) = (&d, &t) {
+            assert!(tt.nanos() >= 0 && tt.nanos() < 86_400_000_000_000, "C02: time-of-day part of an LDT is outside one day");
+            assert!((dd.ticks() as i128) * 1_000_000 + (tt.nanos() as i128) == x as i128, "C02: DATE part + LTOD part does not reconstruct the LDT");
+        }
+        kani::cover!(d.is_ok() && t.is_ok() && x > 0);
+        std::mem::forget(d); std::mem::forget(t); std::mem::forget(v);
+    }
+}
